@@ -16,8 +16,11 @@ Sub-checks
                num_samples/num_starts=k, select_best=True): the returned reward is the objective of the returned
                actions and the maximum over that instance's k rollouts (spy + a second call with
                select_best=False under the same torch seed).
-  pomo_step  : POMO.shared_step(val/test) -- the (n_aug, n_start) regrouping that reports max_reward /
-               max_aug_reward, against the same spy + oracle.
+  pomo_step  : POMO / SymNCO / PolyNet .shared_step(val/test) -- the (n_aug, n_start) regrouping that reports
+               max_reward / max_aug_reward, against the same spy + oracle; augment_fn as a callable, num_augment <= 1,
+               first_aug_identity=False, feats; one model object on successive batches of other sizes / phases.
+  Round 3b   : evaluation on op / pctsp / spctsp / pdp / sdvrp / cvrptw, the evaluator kwargs top_p / softmax_temp /
+               feats / force_dihedral_8=False / _inner(num_augment=), and evaluate_policy's default automatic batch size.
 """
 import contextlib
 import io
@@ -26,7 +29,10 @@ import math
 import hypothesis.strategies as st
 import torch
 
+from ..oracles import routing as _R
 from ..oracles.routing import judge_cvrp, judge_mtsp, judge_tsp
+from ..envs import SPECS, py_instance
+from ..policies import small_cfg
 from ..runner import Sub
 
 PROPERTY = "C15"
@@ -46,7 +52,17 @@ RULE = (
     "samples(num_samples=k)|ms_sampling|ms_greedy(num_starts=k), k 1-6, temperature/top_k drawn, select_best=True, "
     "env passed explicitly); non-trivial = B >= 2, k >= 2 and for some instance a rollout other than its copy 0 is "
     "strictly best. pomo_step: POMO val/test step with num_augment 2-8, num_starts 2-n; "
-    "non-trivial = B >= 2 and candidates differ. Distinct = distinct case hash."
+    "non-trivial = B >= 2 and candidates differ. Distinct = distinct case hash. "
+    "Round 3b: evaluation also on op|pctsp|spctsp|pdp|sdvrp|cvrptw (1/3 of the cases; vf.policies.small_cfg "
+    "configurations, routing oracles of vf/oracles/routing.py, trailing depot zeros = EvalBase's padding stripped "
+    "before judging; op without the multistart methods); evaluator kwargs top_p 0.6/0.9, softmax_temp None/0.5/2.0, "
+    "feats=['locs'], force_dihedral_8=False with the *_dihedral_8 method names, eval_fn(policy, loader, num_augment=k); "
+    "evaluate_policy with its default auto_batch_size=True (batch_size=None, max_batch_size 1-8|4096, start_batch_size "
+    "= rollouts-per-instance x 1-9 | 8192; multistart methods with any num_starts, F49) - the effective loader batch "
+    "size is read from the evaluator's reset calls. pomo_step: augment_fn symmetric|dihedral8|callable (harness "
+    "rotation/reflection), num_augment 0-6 (<= 1 = augmentation off), first_aug_identity=False (F11 rows reported "
+    "under F11's signature), feats=['locs'], PolyNet val/test step (k 2-4, val_num_solutions 2-5, num_augment >= 1), and "
+    "histories: the same model object on 1-2 further batches of other sizes / phases (val|test|train)."
 )
 ASSUMPTIONS = [
     "normalize=True (min_max_normalize) rescales coordinates by design and is outside the asserted domain",
@@ -67,6 +83,19 @@ ASSUMPTIONS = [
     "every evaluation method is asserted in the objective of the EVALUATOR's environment (for mtsp its cost_type); "
     "before the repair F47 the evaluators called the policy without env, so the policy decoded with a default env "
     "rebuilt from its env name and method='sampling' reported that env's (minmax) reward for a cost_type='sum' env",
+    "auto_batch_size: get_automatic_batch_size documents max_batch_size as 'the practical maximum batch size' and "
+    "start_batch_size as 'the theoretical maximum' for all rollouts of a batch (num_starts counted as num_starts // 10, "
+    "at least 1): asserted b <= max_batch_size, b * rollouts-per-instance <= start_batch_size, batches (b, ..., b, rest) "
+    "in dataset order; start_batch_size >= rollouts per instance (otherwise the function takes log2(0): outside)",
+    "op: the multistart methods force start nodes the length budget may not allow (finding F17, C12) and are not drawn; "
+    "pdp: free start (force_start_at_depot=False), multistart starts are pickups; cvrptw: scale=True; sdvrp / cvrptw / "
+    "op / pctsp / spctsp returned actions are judged after stripping trailing zeros (finished rows wait at the depot, "
+    "EvalBase pads shorter loader batches with zeros)",
+    "softmax_temp is accepted by SamplingEval and handed to the policy, where no decoding strategy reads it (drawn, no "
+    "effect expected); feats=['locs'] is the only coordinate key of a reset state",
+    "PolyNet(num_augment=0) raises IndexError in its val/test step (POMO accepts 0): PolyNet's documented 'no "
+    "augmentation' value is 1 (encoder_type='MatNet'), 0 is not drawn for it; SymNCO train steps between evaluation "
+    "steps are skipped (they need a SymNCOPolicy, the evaluation steps use the AM policy)",
     "mtsp actions are judged after stripping the trailing depot padding; num_starts <= num_loc - 1 customers; "
     "flp/mcp/ffsp/fjsp/mpdp (other state-reward envs) have no AttentionModelPolicy embeddings or are expensive and "
     "are left to C03/C12",
@@ -355,11 +384,21 @@ METHODS = ["greedy", "sampling", "multistart_greedy", "augment", "augment_dihedr
 # methods that are defined for an environment whose reward lives in the rollout state (see ASSUMPTIONS)
 STATE_REWARD_METHODS = ["sampling"]
 EVAL_ENVS = ["tsp", "cvrp", "tsp", "cvrp", "tsp", "cvrp", "mtsp", "mtsp"]
+# audit item 18: environments with variable-length episodes (EvalBase zero-pads their actions across loader batches),
+# a prize objective (op), penalties (pctsp/spctsp), precedence (pdp), split deliveries (sdvrp), time windows (cvrptw).
+# Configurations = vf.policies.small_cfg (generator defaults; cvrptw scale=True; pdp free start).
+MORE_ENVS = ["op", "pctsp", "spctsp", "pdp", "sdvrp", "cvrptw"]
+JUDGES = {"op": _R.judge_op, "pctsp": _R.judge_pctsp, "spctsp": _R.judge_pctsp, "pdp": _R.judge_pdp,
+          "sdvrp": _R.judge_sdvrp, "cvrptw": _R.judge_cvrptw}
+# op: multistart methods force start nodes that the instance's length budget may not allow (finding F17, C12)
+NO_MULTISTART = ("op",)
 
 
 def _draw_env(draw, envs):
-    env = draw(st.sampled_from(envs))
+    env = draw(envs if not isinstance(envs, list) else st.sampled_from(envs))
     n = draw(st.integers(4, 8))
+    if env == "pdp":  # pickups 1..n/2, deliveries n/2+1..n
+        n = 2 * draw(st.integers(2, 4))
     c = dict(env=env, n=n)
     if env == "mtsp":  # node 0 is the depot, n - 1 customers, num_agents drawn per instance from [lo, hi]
         c["ct"] = draw(st.sampled_from(["minmax", "minmax", "sum"]))
@@ -376,22 +415,51 @@ def _max_starts(case):
     return case["n"] - 1 if case["env"] == "mtsp" else case["n"]
 
 
+def _ratio(c):
+    """get_automatic_batch_size: rollouts per instance as the function counts them (num_starts // 10 !)."""
+    r = 1
+    if "multistart" in c["method"]:
+        # (one tenth of the start nodes, at least 1: F49 - before 8067ef1 num_starts < 10 divided by zero)
+        r *= max(1, (c["ns"] if c.get("ns") is not None else c["n"]) // 10)
+    if "na" in c:
+        r *= c["na"]
+    if c["method"] == "sampling":
+        r *= c["samples"]
+    return r
+
+
 @st.composite
 def eval_cases(draw, tier="quick"):
-    c = _draw_env(draw, EVAL_ENVS)
+    c = _draw_env(draw, st.one_of(st.sampled_from(EVAL_ENVS), st.sampled_from(EVAL_ENVS), st.sampled_from(MORE_ENVS)))
     env, n = c["env"], c["n"]
     N = draw(st.integers(1, 13))
     bs = draw(st.one_of(st.integers(1, N + 1), st.sampled_from([2, 3, 4, 5])))
-    method = draw(st.sampled_from(STATE_REWARD_METHODS if _state_reward(c) else METHODS))
+    methods = STATE_REWARD_METHODS if _state_reward(c) else METHODS
+    if env in NO_MULTISTART:
+        methods = [m for m in methods if "multistart" not in m]
+    method = draw(st.sampled_from(methods))
+    api = draw(st.sampled_from(["evaluate_policy", "class"]))
+    # audit item 2: evaluate_policy's own default auto_batch_size=True (batch_size=None, max_/start_batch_size drawn)
+    auto = api == "evaluate_policy" and draw(st.sampled_from([False, False, True]))
+    if auto and "multistart" in method and env not in ("mtsp", "pdp") and draw(st.integers(0, 3)) == 0:
+        n = c["n"] = draw(st.sampled_from([10, 11]))  # num_starts // 10 >= 1 enters the rollouts-per-instance count
     E = draw(st.sampled_from([16, 32]))
-    c.update(N=N, bs=bs, method=method,
-             api=draw(st.sampled_from(["evaluate_policy", "class"])),
+    c.update(N=N, bs=bs, method=method, api=api,
              data=draw(st.sampled_from(["env.dataset", "tdd", "fastgen"])),
              E=E, H=draw(st.sampled_from([1, 2] if E == 16 else [2, 4])),
              spread=draw(st.sampled_from([1.0, 1.25, 1.5])),
              pseed=draw(SEED), dseed=draw(SEED), tseed=draw(SEED))
     if "augment" in method:
         c["na"] = 8 if "dihedral" in method else draw(st.one_of(st.integers(2, 6), st.integers(1, 6)))
+        # audit item 18: evaluator kwargs feats / force_dihedral_8=False / _inner(num_augment=)
+        opt = draw(st.sampled_from(["", "", "feats", "fd8", "inner_na"]))
+        if opt == "feats":
+            c["feats"] = ["locs"]  # (the reset state keeps every coordinate, depot included, under 'locs')
+        elif opt == "fd8" and "dihedral" in method and api == "evaluate_policy":
+            c["fd8"] = False  # "*_dihedral_8" method names with force_dihedral_8=False: symmetric family, free count
+            c["na"] = draw(st.integers(1, 6))
+        elif opt == "inner_na" and api == "class":
+            c["inner_na"] = True  # eval_fn(policy, loader, num_augment=na): the **kwargs route of EvalBase.__call__
     if "multistart" in method:
         ms = _max_starts(c)
         c["ns"] = draw(st.one_of(st.none(), st.integers(2, ms), st.integers(1, ms)))
@@ -399,6 +467,17 @@ def eval_cases(draw, tier="quick"):
         c["samples"] = draw(st.one_of(st.integers(1, 6), st.integers(2, 6))) if env == "mtsp" else draw(st.integers(1, 6))
         c["temperature"] = draw(st.sampled_from([1.0, 1.0, 2.0]))
         c["top_k"] = draw(st.sampled_from([0, 0, 3]))
+        c["top_p"] = draw(st.sampled_from([0.0, 0.0, 0.0, 0.6, 0.9]))
+        st_ = draw(st.sampled_from(["absent", "absent", "none", 0.5, 2.0]))  # (accepted, stored, passed on to the policy)
+        if st_ != "absent":
+            c["softmax_temp"] = None if st_ == "none" else st_
+    if auto:
+        r = _ratio(c)
+        # start_batch_size "the theoretical maximum": r * q leaves q instances per batch before the cap and the
+        # rounding to a power of two; max_batch_size "the practical maximum"
+        q = draw(st.one_of(st.integers(1, 9), st.sampled_from([8192])))
+        c["auto"] = dict(start=r * q if q < 8192 else 8192,
+                         max=draw(st.one_of(st.integers(1, 8), st.integers(2, 6), st.sampled_from([4096]))))
     return c
 
 
@@ -457,6 +536,8 @@ def _sized_env(name, n, case=None):
             _ENVS[key] = get_env(name, generator_params=dict(num_loc=n, min_num_agents=lo, max_num_agents=hi),
                                  cost_type=case["ct"])
         return _ENVS[key]
+    if name in MORE_ENVS:
+        return SPECS[name].env(small_cfg(name, n))
     if (name, n) not in _ENVS:
         _ENVS[name, n] = get_env(name, generator_params=dict(num_loc=n))
     return _ENVS[name, n]
@@ -483,6 +564,8 @@ def make_policy(case):
 def _instances(name, td):
     """python float64 instances of the ORIGINAL (generator) data, one per row."""
     out = []
+    if name in MORE_ENVS:
+        return [py_instance(name, td[i]) for i in range(td.batch_size[0])]
     for i in range(td.batch_size[0]):
         if name == "tsp":
             out.append({"locs": td["locs"][i].double().tolist()})
@@ -499,11 +582,15 @@ def _judge(name, inst, acts, ct=None):
         return judge_tsp(inst, list(acts))
     if name == "mtsp":
         return judge_mtsp(inst, _strip(acts), {"cost_type": ct})
+    if name == "pdp":  # fixed episode length, the depot is never an action (free start): nothing to strip
+        return _R.judge_pdp(inst, list(acts), {"force_start_at_depot": False})
+    if name in JUDGES:  # trailing zeros = finished rows waiting at the depot / EvalBase's padding across batches
+        return JUDGES[name](inst, _strip(acts), SPECS[name].judge_cfg(small_cfg(name, len(inst["locs"]))))
     return judge_cvrp(inst, _strip(acts))
 
 
 def _key(name, acts):
-    return tuple(acts) if name == "tsp" else tuple(_strip(acts))
+    return tuple(acts) if name in ("tsp", "pdp") else tuple(_strip(acts))
 
 
 def _dataset(case, env):
@@ -574,7 +661,8 @@ def _greedy_reference(case, policy, env, td0, sizes):
     """Plain single greedy decoding per loader batch (same batch composition as the evaluator sees)."""
     outs = []
     off = 0
-    denv = _default_env(case["env"])
+    # (new environments are configured: decode with the sized env itself, as the evaluators do since F47)
+    denv = env if case["env"] in MORE_ENVS else _default_env(case["env"])
     with torch.inference_mode():
         for Bj in sizes:
             td = env.reset(td0[off:off + Bj].clone())
@@ -597,9 +685,22 @@ def _run_eval(case, ctx, env_spy, pol_spy, ds):
         kw["num_starts"] = case["ns"]
     if method == "sampling":
         kw.update(samples=case["samples"], temperature=case["temperature"], top_k=case["top_k"])
+        if "top_p" in case:
+            kw["top_p"] = case["top_p"]
+        if "softmax_temp" in case:
+            kw["softmax_temp"] = case["softmax_temp"]
+    if "feats" in case:
+        kw["feats"] = list(case["feats"])
     torch.manual_seed(case["tseed"])
     with _quiet():
         if case["api"] == "evaluate_policy":
+            if "fd8" in case:
+                kw["force_dihedral_8"] = case["fd8"]
+            if case.get("auto"):
+                # the library default: auto_batch_size left at True, batch_size at None
+                return ctx.guard(E.evaluate_policy, env_spy, pol_spy, ds, method=method,
+                                 max_batch_size=case["auto"]["max"], start_batch_size=case["auto"]["start"],
+                                 progress=False, what=f"evaluate_policy|auto_batch_size|{method}", **kw)
             return ctx.guard(E.evaluate_policy, env_spy, pol_spy, ds, method=method, batch_size=bs,
                              auto_batch_size=False, progress=False, what=f"evaluate_policy|{method}", **kw)
         if "multistart" in method:
@@ -612,12 +713,14 @@ def _run_eval(case, ctx, env_spy, pol_spy, ds):
                "multistart_greedy_augment_dihedral_8": E.GreedyMultiStartAugmentEval}[method]
         fn = ctx.guard(cls, env_spy, progress=False, what=f"{cls.__name__}.__init__", **kw)
         loader = DataLoader(ds, batch_size=bs, shuffle=False, num_workers=0, collate_fn=ds.collate_fn)
+        if case.get("inner_na"):
+            return ctx.guard(fn, pol_spy, loader, num_augment=case["na"], what=f"{cls.__name__}|{method}|num_augment=")
         return ctx.guard(fn, pol_spy, loader, what=f"{cls.__name__}|{method}")
 
 
 def exec_eval(case, ctx):
     name, n, N, bs, method = (case[k] for k in ("env", "n", "N", "bs", "method"))
-    sl = method if name != "mtsp" else f"{method}|mtsp|{case['ct']}"
+    sl = method if name in ("tsp", "cvrp") else (f"{method}|mtsp|{case['ct']}" if name == "mtsp" else f"{method}|{name}")
     env = _sized_env(name, n, case)
     ds, td0 = _dataset(case, env)
     insts = _instances(name, td0)
@@ -634,21 +737,53 @@ def exec_eval(case, ctx):
         ctx.event(f"mtsp|cost_type={case['ct']}|{method}")
     out = _run_eval(case, ctx, SpyEnv(env, log, "eval"), SpyPolicy(policy, log), ds)
 
-    sizes = [min(bs, N - s) for s in range(0, N, bs)]
+    groups = _groups(log)
+    seen = [g["B"] for g in groups]
+    if case.get("auto"):
+        # automatic batch size: the effective loader batch size b is read from the evaluator's reset calls.  Contract
+        # (docstring of get_automatic_batch_size): max_batch_size is "the practical maximum batch size",
+        # start_batch_size "the theoretical maximum" for all rollouts of a batch together; the loader keeps every
+        # instance in order (b, b, ..., rest).
+        mx, start, ratio = case["auto"]["max"], case["auto"]["start"], _ratio(case)
+        b = seen[0] if seen else 0
+        sizes = [min(b, N - s) for s in range(0, N, b)] if b >= 1 else []
+        ctx.check(seen == sizes, f"auto_batch_size|batches|{sl}",
+                  f"evaluator reset batches {seen} for {N} instances are not (b, ..., b, rest)")
+        ctx.check(1 <= b <= mx, f"auto_batch_size|exceeds_max_batch_size|{sl}",
+                  f"effective loader batch size {b} with max_batch_size={mx}, start_batch_size={start}, "
+                  f"{ratio} rollouts per instance")
+        ctx.check(b * ratio <= start, f"auto_batch_size|exceeds_start_batch_size|{sl}",
+                  f"effective loader batch size {b} x {ratio} rollouts per instance > start_batch_size={start}")
+        ctx.event(f"auto_batch_size|b={'1' if b == 1 else ('>=N' if b >= N else 'k')}|"
+                  f"cap={'max' if mx < start // max(ratio, 1) else 'start'}")
+        if "multistart" in method:
+            ns_eff = case["ns"] if case.get("ns") is not None else case["n"]
+            ctx.event(f"auto_batch_size|multistart|num_starts{'<10' if ns_eff < 10 else '>=10'}")
+        bs = b
+        if seen != sizes:
+            return
+    else:
+        sizes = [min(bs, N - s) for s in range(0, N, bs)]
     batching = "single_batch" if len(sizes) == 1 else ("partial_last_batch" if N % bs else "batches_divide")
     ctx.event(f"method={method}|{case['api']}")
     ctx.event(f"env={name}|data={case['data']}")
     ctx.event(batching)
+    for k in ("top_p", "softmax_temp", "feats", "fd8", "inner_na"):
+        if case.get(k) not in (None, 0.0) or (k in case and k in ("softmax_temp", "fd8")):
+            ctx.event(f"kwarg|{k}")
 
     rewards, actions = out["rewards"], out["actions"]
     if not ctx.check(rewards.dim() == 1 and rewards.shape[0] == N and actions.dim() == 2 and actions.shape[0] == N,
                      f"eval_shape|{sl}", f"rewards {tuple(rewards.shape)}, actions {tuple(actions.shape)} for "
                      f"{N} instances (loader batches {sizes})"):
         return
-    groups = _groups(log)
-    if not ctx.check([g["B"] for g in groups] == sizes, f"eval_batches|{sl}",
-                     f"evaluator reset batches {[g['B'] for g in groups]}, expected {sizes}"):
+    if not ctx.check(seen == sizes, f"eval_batches|{sl}",
+                     f"evaluator reset batches {seen}, expected {sizes}"):
         return
+    if name in MORE_ENVS:
+        # EvalBase pads the action tensors of the loader batches to a common length with zeros
+        lens = {len(_strip(a)) for a in actions.tolist()}
+        ctx.event("padded_variable_length" if len(lens) > 1 else "equal_length")
     cands = _candidates(ctx, name, groups, insts, sizes, sl, ct_of, ct)
     greedy = _greedy_reference(case, policy, env, td0, sizes)
 
@@ -710,8 +845,12 @@ def _min_eval(case):
             c = {**case, key: val}
             if key == "E":
                 c["H"] = 2
+            if case.get("auto") and key in ("n", "ns", "na", "samples", "bs"):
+                continue  # (start_batch_size was drawn as a multiple of the rollouts per instance)
+            if key == "n" and case["env"] == "pdp":
+                continue
             if key == "env":  # (mtsp -> tsp: drop the mtsp-only keys)
-                if _state_reward(case):
+                if _state_reward(case) or case["env"] in MORE_ENVS:
                     continue
                 c.pop("ct", None), c.pop("agents", None)
             if c.get("agents"):
@@ -839,80 +978,212 @@ def _min_sel(case):
 
 
 # =========================================================================== C. POMO val/test step
+def rot90_augmentation(xy, copies):
+    """A caller-supplied augment_fn (StateAugmentation: 'if callable, then use the function directly'; called
+    positionally with (feature [num_augment*B, nodes, 2], num_augment), so the parameter names are the caller's own):
+    copy a of an instance (rows a*B .. a*B+B-1) is rotated by a*90 degrees about the centre of the unit square and
+    mirrored for a >= 4 - exact isometries, copy 0 is the identity."""
+    R = xy.shape[0]
+    B = R // copies
+    out = xy.clone()
+    for a in range(copies):
+        blk = xy[a * B:(a + 1) * B] - 0.5
+        x, y = blk[..., 0], blk[..., 1]
+        if a >= 4:
+            x = -x
+        for _ in range(a % 4):
+            x, y = -y, x
+        out[a * B:(a + 1) * B] = torch.stack([x, y], -1) + 0.5
+    return out
+
+
 @st.composite
 def pomo_cases(draw, tier="quick"):
     env = draw(st.sampled_from(["tsp", "cvrp"]))
     n = draw(st.integers(4, 8))
     E = draw(st.sampled_from([16, 32]))
-    family = draw(st.sampled_from(["dihedral8", "symmetric"]))
-    return dict(env=env, n=n, B=draw(st.integers(1, 6)), E=E, H=draw(st.sampled_from([1, 2] if E == 16 else [2, 4])),
-                spread=draw(st.sampled_from([1.0, 1.25, 1.5])), family=family,
-                na=8 if family == "dihedral8" else draw(st.integers(2, 6)),
-                ns=draw(st.one_of(st.none(), st.integers(2, n))), phase=draw(st.sampled_from(["val", "test"])),
-                model=draw(st.sampled_from(["pomo", "pomo", "symnco"])),
-                pseed=draw(SEED), dseed=draw(SEED), tseed=draw(SEED))
+    # audit item 24: augment_fn as a callable; num_augment <= 1 (no augmentation at all); first_aug_identity=False;
+    # feats handed over; the PolyNet val/test step
+    family = draw(st.sampled_from(["dihedral8", "symmetric", "symmetric", "callable"]))
+    model = draw(st.sampled_from(["pomo", "pomo", "symnco", "polynet"]))
+    if family == "dihedral8":
+        na = 8
+    elif model == "symnco":
+        na = draw(st.integers(2, 6))
+    else:
+        na = draw(st.one_of(st.integers(2, 6), st.integers(0, 6)))
+    c = dict(env=env, n=n, B=draw(st.integers(1, 6)), E=E, H=draw(st.sampled_from([1, 2] if E == 16 else [2, 4])),
+             spread=draw(st.sampled_from([1.0, 1.25, 1.5])), family=family, na=na,
+             ns=draw(st.one_of(st.none(), st.integers(2, n))), phase=draw(st.sampled_from(["val", "test"])),
+             model=model, pseed=draw(SEED), dseed=draw(SEED), tseed=draw(SEED))
+    if model == "polynet":
+        # (PolyNet(num_augment=0) raises IndexError in its val/test step - max_idxs.unsqueeze(2) on a 1-D tensor - while
+        #  POMO accepts 0; PolyNet documents 1 as its "no augmentation" value (encoder_type="MatNet"): 0 is left out)
+        c["na"] = max(c["na"], 1)
+        c["E"], c["H"] = 32, 4
+        c["K"] = draw(st.integers(2, 4))            # strategies of the policy
+        c["ns"] = draw(st.integers(2, 5))           # val_num_solutions (sampled rollouts per instance and copy)
+    if model != "symnco" and na >= 2 and draw(st.integers(0, 3)) == 0:
+        c["fai"] = False  # first_aug_identity=False (F11: copy 1 of instance 0 is damaged, reported under F11's signature)
+    if draw(st.integers(0, 3)) == 0:
+        c["feats"] = ["locs"]
+    # audit H6: the same model object on further batches of other sizes / phases (val -> train -> val)
+    k = draw(st.sampled_from([0, 0, 1, 2]))
+    if k:
+        c["more"] = [dict(B=draw(st.integers(1, 6)), phase=draw(st.sampled_from(["val", "test", "train", "val"])),
+                          dseed=draw(SEED), tseed=draw(SEED)) for _ in range(k)]
+    return c
+
+
+def make_polynet_policy(case):
+    from rl4co.models.zoo.polynet.policy import PolyNetPolicy
+
+    torch.manual_seed(case["pseed"])
+    pol = PolyNetPolicy(k=case["K"], env_name=case["env"], embed_dim=case["E"], num_encoder_layers=1,
+                        num_heads=case["H"], feedforward_hidden=2 * case["E"], normalization="instance")
+    with torch.no_grad():
+        for p in pol.parameters():
+            p.mul_(case["spread"])
+    pol.eval()
+    return pol
 
 
 def exec_pomo(case, ctx):
-    """POMO / SymNCO shared_step in val/test: 'max_reward' = mean over (instance, copy) of the best start,
-    'max_aug_reward' = mean over instances of the best over copies x starts."""
-    from rl4co.models.zoo import POMO, SymNCO
+    """POMO / SymNCO / PolyNet shared_step in val/test: 'max_reward' = mean over (instance, copy) of the best start,
+    'max_aug_reward' = mean over instances of the best over copies x starts (absent without augmentation)."""
+    from rl4co.models.zoo import POMO, PolyNet, SymNCO
 
-    name, n, B, na, ns = (case[k] for k in ("env", "n", "B", "na", "ns"))
+    name, n, na, ns = (case[k] for k in ("env", "n", "na", "ns"))
     env = _sized_env(name, n)
-    policy = make_policy(case)
+    policy = make_polynet_policy(case) if case["model"] == "polynet" else make_policy(case)
     log = []
-    torch.manual_seed(case["dseed"])
-    td0 = env.generator(B)
-    insts = _instances(name, td0)
     mt = {ph: ["reward", "max_reward", "max_aug_reward"] for ph in ("val", "test")}
+    fam = case["family"]
+    kw = dict(num_augment=na, augment_fn=rot90_augmentation if fam == "callable" else fam, metrics=mt)
+    if "feats" in case:
+        kw["feats"] = list(case["feats"])
+    if "fai" in case:
+        kw["first_aug_identity"] = case["fai"]
     with _quiet():
         if case["model"] == "pomo":
-            model = ctx.guard(POMO, env, policy, num_augment=na, augment_fn=case["family"], num_starts=ns,
-                              metrics=mt, what="POMO.__init__")
+            model = ctx.guard(POMO, env, policy, num_starts=ns, what="POMO.__init__", **kw)
+        elif case["model"] == "polynet":
+            model = ctx.guard(PolyNet, env, policy, k=case["K"], val_num_solutions=ns, what="PolyNet.__init__", **kw)
         else:
-            model = ctx.guard(SymNCO, env, policy, num_augment=na, augment_fn=case["family"],
-                              num_starts=0 if ns is None else ns, metrics=mt, what="SymNCO.__init__")
+            model = ctx.guard(SymNCO, env, policy, num_starts=0 if ns is None else ns, what="SymNCO.__init__", **kw)
         # installed after construction (hyper-parameter saving copies the env; envs are registered sub-modules)
         model._modules.pop("env", None)
         model.__dict__["env"] = SpyEnv(env, log, "model")
-        model.eval()
-        torch.manual_seed(case["tseed"])
+    steps = [dict(B=case["B"], phase=case["phase"], dseed=case["dseed"], tseed=case["tseed"])] + list(case.get("more", []))
+    sizes = []
+    for i, stp in enumerate(steps):
+        if stp["phase"] == "train" and case["model"] == "symnco":
+            continue  # (SymNCO trains only with its own SymNCOPolicy; the evaluation steps here use the AM policy)
+        if stp["phase"] == "train":
+            # a training step in between (same object): only required not to disturb the evaluation steps around it
+            model.train()
+            torch.manual_seed(stp["dseed"])
+            tdt = env.generator(stp["B"])
+            torch.manual_seed(stp["tseed"])
+            del log[:]
+            with _quiet():
+                res = ctx.guard(model.shared_step, tdt, i, "train", what=f"{case['model']}.shared_step|train")
+            ctx.check(res.get("loss") is not None and bool(torch.isfinite(torch.as_tensor(res["loss"]).detach()).all()),
+                      f"pomo_train_step_loss|{case['model']}", f"train step between evaluation steps returned loss "
+                      f"{res.get('loss')!r}")
+            ctx.event("history|train_step_between")
+            continue
+        _pomo_eval_step(case, ctx, model, env, log, stp, i)
+        sizes.append(stp["B"])
+    if len(sizes) >= 2:
+        ctx.event("history|same_object_" + ("other_batch_size" if len(set(sizes)) > 1 else "same_batch_size"))
+    ctx.sample({k: v for k, v in case.items() if k not in ("pseed", "dseed", "tseed")})
+
+
+def _pomo_eval_step(case, ctx, model, env, log, stp, idx):
+    name, n, na, ns = (case[k] for k in ("env", "n", "na", "ns"))
+    B, ph = stp["B"], stp["phase"]
+    fai = case.get("fai", True)
+    na_eff = na if na > 1 else 1  # num_augment <= 1: no augmentation, one copy
+    torch.manual_seed(stp["dseed"])
+    td0 = env.generator(B)
+    insts = _instances(name, td0)
+    del log[:]
+    model.eval()
+    with _quiet():
+        torch.manual_seed(stp["tseed"])
         with torch.inference_mode():
-            out = ctx.guard(model.shared_step, td0.clone(), 0, case["phase"],
-                            what=f"{case['model']}.shared_step|{case['phase']}")
+            out = ctx.guard(model.shared_step, td0.clone(), idx, ph, what=f"{case['model']}.shared_step|{ph}")
     sl = f"{case['model']}|{case['family']}"
-    ctx.event(f"{sl}|{case['phase']}|ns={'auto' if ns is None else 'k'}")
+    if idx == 0:
+        ctx.event(f"{sl}|{ph}|ns={'auto' if ns is None else 'k'}")
+        ctx.event(f"num_augment={'<=1' if na <= 1 else 'k'}|first_aug_identity={fai}|feats={'given' if 'feats' in case else 'default'}")
     calls = [r for r in log if r[0] == "reward"]
     if not ctx.check(len(calls) >= 1, f"pomo_no_candidates|{sl}", "no get_reward call observed"):
         return
     k_starts = ns if ns is not None else (n if case["model"] == "pomo" else 1)
-    groups = [{"B": B, "calls": calls}]
-    cands = _candidates(ctx, name, groups, insts, [B], f"pomo|{sl}")
     rec = calls[-1]
     Rrows = rec[2]
-    if not ctx.check(Rrows == B * na * k_starts, f"pomo_candidate_count|{sl}",
+    if not ctx.check(Rrows == B * na_eff * k_starts, f"pomo_candidate_count|{sl}",
                      f"{Rrows} rollouts for B={B}, num_augment={na}, num_starts={k_starts}"):
         return
-    # oracle regrouping: row = s*(na*B) + a*B + b  (policy batchifies the augmented batch by num_starts)
     A = rec[3].tolist()
+    # first_aug_identity=False: StateAugmentation overwrites node 0 of row B (copy 1 of instance 0) with un-augmented
+    # coordinates (finding F11).  The rollouts of that copy (one per start) are then evaluated by the env on a damaged
+    # instance; they are reported under F11's signature and taken with the reward the library saw.
+    damaged = set()
+    if not fai and na_eff >= 2:
+        rw = rec[4].reshape(-1).double().tolist()
+        for s in range(k_starts):
+            r = s * (B * na_eff) + 1 * B + 0
+            v = _judge(name, insts[0], A[r])
+            if not _close(rw[r], v.obj, v.terms, 1e-4):
+                damaged.add(r)
+        if damaged:
+            ctx.event("F11_damaged_copy_in_model_step")
+            ctx.violation(f"aug_not_isometric|first_aug_identity=False|row_B_node0_overwritten|{case['model']}_step",
+                          f"{case['model']}(first_aug_identity=False, num_augment={na}): the rollouts of copy 1 of instance 0 "
+                          f"are rewarded on a damaged copy (rows {sorted(damaged)[:4]})")
+    groups = [{"B": B, "calls": [c for c in calls]}]
+    if damaged:  # keep the damaged rows out of the row-mapping verification
+        groups = [{"B": B, "calls": []}]
+        cands = [[] for _ in insts]
+        for _, tag, R_, acts_, rew_ in calls:
+            AA, rr = acts_.tolist(), rew_.reshape(-1).double().tolist()
+            for r in range(R_):
+                if r in damaged and R_ == Rrows:
+                    cands[r % B].append((rr[r], _key(name, AA[r]), tag))
+                    continue
+                v = _judge(name, insts[r % B], AA[r])
+                if not _close(rr[r], v.obj, v.terms, 1e-4):
+                    ctx.violation(f"candidate_row_mapping|pomo|{sl}|{tag}",
+                                  f"row {r} of a {R_}-row get_reward call has reward {rr[r]} but its actions cost {v.obj} "
+                                  f"on original instance {r % B}")
+                cands[r % B].append((v.obj, _key(name, AA[r]), tag))
+    else:
+        cands = _candidates(ctx, name, groups, insts, [B], f"pomo|{sl}")
+    # oracle regrouping: row = s*(na*B) + a*B + b  (policy batchifies the augmented batch by num_starts)
     obj = {}
+    rwl = rec[4].reshape(-1).double().tolist()
     for r in range(Rrows):
-        b, a, s = r % B, (r // B) % na, r // (B * na)
-        obj[b, a, s] = _judge(name, insts[b], A[r]).obj
-    best_start = [[max(obj[b, a, s] for s in range(k_starts)) for a in range(na)] for b in range(B)]
-    want_max = sum(sum(row) for row in best_start) / (B * na)
+        b, a, s = r % B, (r // B) % na_eff, r // (B * na_eff)
+        obj[b, a, s] = rwl[r] if r in damaged else _judge(name, insts[b], A[r]).obj
+    best_start = [[max(obj[b, a, s] for s in range(k_starts)) for a in range(na_eff)] for b in range(B)]
+    want_max = sum(sum(row) for row in best_start) / (B * na_eff)
     want_aug = sum(max(row) for row in best_start) / B
-    ph = case["phase"]
     got_max = out.get(f"{ph}/max_reward")
     got_aug = out.get(f"{ph}/max_aug_reward")
-    if not ctx.check(got_aug is not None, f"pomo_metrics_missing|{sl}", f"metrics {sorted(out.keys())}"):
-        return
-    ctx.check(abs(float(got_aug) - want_aug) <= 1e-4 * (1 + abs(want_aug)), f"pomo_max_aug_reward|{sl}",
-              f"max_aug_reward {float(got_aug)} != mean over instances of the best over copies x starts {want_aug}")
+    if na_eff >= 2:
+        if not ctx.check(got_aug is not None, f"pomo_metrics_missing|{sl}", f"metrics {sorted(out.keys())}"):
+            return
+        ctx.check(abs(float(got_aug) - want_aug) <= 1e-4 * (1 + abs(want_aug)), f"pomo_max_aug_reward|{sl}",
+                  f"max_aug_reward {float(got_aug)} != mean over instances of the best over copies x starts {want_aug}")
+    else:
+        ctx.check(got_aug is None, f"pomo_max_aug_reward|{sl}|no_augmentation",
+                  f"max_aug_reward {got_aug} reported although num_augment={na} switches augmentation off")
     if k_starts > 1:
         ok = got_max is not None and abs(float(got_max) - want_max) <= 1e-4 * (1 + abs(want_max))
-        if case["model"] == "pomo":
+        if case["model"] in ("pomo", "polynet"):
             ctx.check(ok, f"pomo_max_reward|{sl}",
                       f"max_reward {got_max} != mean over (instance, copy) of the best start {want_max}")
         else:
@@ -922,14 +1193,17 @@ def exec_pomo(case, ctx):
     differ = any(max(c[0] for c in cs) - min(c[0] for c in cs) > 1e-6 for cs in cands if cs)
     if B >= 2 and differ:
         ctx.nontriv()
-    ctx.sample({k: v for k, v in case.items() if k not in ("pseed", "dseed", "tseed")})
 
 
 def _min_pomo(case):
+    if case.get("more"):
+        yield {**case, "more": case["more"][:-1]}
     for key, val in (("B", 1), ("B", 2), ("n", 4), ("E", 16), ("spread", 1.0), ("env", "tsp"), ("ns", 2), ("na", 2),
                      ("model", "pomo")):
         if key in case and case[key] != val:
             if key == "na" and case["family"] == "dihedral8":
+                continue
+            if case["model"] == "polynet" and key in ("E", "model"):
                 continue
             c = {**case, key: val}
             if key == "E":
@@ -945,6 +1219,8 @@ def preimport():
     from rl4co.models.zoo import POMO, SymNCO  # noqa
     from rl4co.tasks import eval as _e  # noqa
 
+    from rl4co.models.zoo import PolyNet  # noqa
+
     for name in ("tsp", "cvrp", "mtsp"):
         _default_env(name)
 
@@ -953,9 +1229,9 @@ SUBS = [
     Sub("transforms", exec_aug, strategy=lambda tier: aug_cases(tier),
         budget={"quick": 15008, "thorough": 100000}, shards=16),
     Sub("evaluation", exec_eval, strategy=lambda tier: eval_cases(tier),
-        budget={"quick": 592, "thorough": 3600}, shards=16, shrink=False, minimize=_min_eval, weight=3.0),
+        budget={"quick": 800, "thorough": 4800}, shards=16, shrink=False, minimize=_min_eval, weight=3.0),
     Sub("select_best", exec_sel, strategy=lambda tier: sel_cases(tier),
         budget={"quick": 320, "thorough": 2400}, shards=8, shrink=False, minimize=_min_sel, weight=1.5),
     Sub("pomo_step", exec_pomo, strategy=lambda tier: pomo_cases(tier),
-        budget={"quick": 192, "thorough": 1200}, shards=8, shrink=False, minimize=_min_pomo, weight=2.0),
+        budget={"quick": 256, "thorough": 1600}, shards=8, shrink=False, minimize=_min_pomo, weight=2.0),
 ]
